@@ -10,10 +10,22 @@ package config
 //@ pred hasCache(c *PikeConfig, name string) := exists i int :: 0 <= i && i < len(c.Caches) && c.Caches[i].Name == name
 //@ pred hasCompress(c *PikeConfig, name string) := exists i int :: 0 <= i && i < len(c.Compresses) && c.Compresses[i].Name == name
 //@ pred serverOK(c *PikeConfig, s ServerConfig) := (forall j int :: 0 <= j && j < len(s.Locations) ==> hasLocation(c, s.Locations[j]))
-//@      && (s.Cache == "" || hasCache(c, s.Cache)) && (s.Compress == "" || hasCompress(c, s.Compress))
+//@      && s.Cache != "" && hasCache(c, s.Cache) && (s.Compress == "" || hasCompress(c, s.Compress))
+
+// What the tag-driven validator contributes: assumed from the validator library, but conditional on the
+// struct tags that are actually in the code (hastag reads them from the real types), so a weakened tag
+// weakens this contract and the closure below no longer proves.
+//@ func validateStruct(c *PikeConfig) (err error)
+//@   virtual
+//@   nopanic
+//@   ensures [server-cache-required] err == nil && hastag("PikeConfig", "Servers", "dive") && hastag("ServerConfig", "Cache", "required")
+//@                      ==> forall i int :: 0 <= i && i < len(c.Servers) ==> c.Servers[i].Cache != ""
+//@   ensures [location-upstream-required] err == nil && hastag("PikeConfig", "Locations", "dive") && hastag("LocationConfig", "Upstream", "required")
+//@                      ==> forall i int :: 0 <= i && i < len(c.Locations) ==> c.Locations[i].Upstream != ""
 
 // an accepted configuration is closed under references
 //@ func (c *PikeConfig) Validate() (err error)
+//@   callsite github.com/go-playground/validator/v10.Validate.Struct#0: validateStruct(c)
 //@   requires [recv] c != nil
 //@   nopanic
 //@   ensures [upstreams] err == nil ==> forall i int :: 0 <= i && i < len(c.Locations) ==> hasUpstream(c, c.Locations[i].Upstream)
@@ -66,3 +78,6 @@ package config
 //@   requires [client] defaultClient != nil
 //@   modifies config.Version
 //@   precall github.com/vicanso/pike/config.Client.Set#0 [validated] closed(config)
+// what is serialised is the configuration as it is returned to the caller: the version stamp is set before, not after
+//@   precall gopkg.in/yaml.v2.Marshal#0 [stamped] config.Version == appVersion() && typeis($arg0, "*PikeConfig") && unbox($arg0, "*PikeConfig") == config
+//@   ensures [stamped] err == nil ==> config.Version == appVersion()
